@@ -188,36 +188,48 @@ def swept(ctx: Ctx, n: int) -> None:
         B = [list(p) for p in face_pts]
         T = [rot(p, theta, axis, origin) for p in face_pts]
         M = [rot(p, theta / 2, axis, origin) for p in face_pts]
-        key = {"theta": round(theta, 3), "steps": steps}
+        key = {"theta": round(theta, 3), "steps": steps, "shape": i % 3 == 2}
         try:
-            op = cb.Revolve(cb.Face(face_pts), theta, axis, origin)
+            # every third program reaches the same machinery through RevolvedShape (a one-quad sketch revolved): the steps are
+            # then taken on the SHAPE, whose operation carries the side edges the shape made for it
+            use_shape = i % 3 == 2
+            if use_shape:
+                shape = cb.RevolvedShape(cb.MappedSketch(face_pts, [[0, 1, 2, 3]]), theta, axis, origin)
+                op = shape.operations[0]
+            else:
+                op = cb.Revolve(cb.Face(face_pts), theta, axis, origin)
             for st in steps:
+                whole = shape if use_shape else op
                 if st == "invert":
                     op.invert()
                     B, T = T, B
                 elif st == "copy":
-                    op = op.copy()
+                    if use_shape:
+                        shape = shape.copy()
+                        op = shape.operations[0]
+                    else:
+                        op = op.copy()
                 elif st == "translate":
                     d = [u(-2, 2) for _ in range(3)]
-                    op.translate(d)
+                    whole.translate(d)
                     B, T, M = ([vadd(p, d) for p in X] for X in (B, T, M))
                 elif st == "rotate":
                     a, ax, o = rng.uniform(-2.5, 2.5), [rng.uniform(-1, 1) for _ in range(3)], [u(-1, 1) for _ in range(3)]
-                    op.rotate(a, ax, o)
+                    whole.rotate(a, ax, o)
                     B, T, M = ([rot(p, a, ax, o) for p in X] for X in (B, T, M))
                 elif st == "scale":
                     r, o = rng.choice([0.5, 1.7, 3.0]), [u(-1, 1) for _ in range(3)]
-                    op.scale(r, o)
+                    whole.scale(r, o)
                     B, T, M = ([scl(p, r, o) for p in X] for X in (B, T, M))
                 else:
                     nrm, o = [rng.uniform(-1, 1) for _ in range(3)], [u(-1, 1) for _ in range(3)]
-                    op.mirror(nrm, o)
+                    whole.mirror(nrm, o)
                     B, T, M = ([mir(p, nrm, o) for p in X] for X in (B, T, M))
                     B, T = T, B        # Operation.mirror swaps the faces so that the block stays right side out
             for a in range(3):
                 op.chop(a, count=2)
             mesh = cb.Mesh()
-            mesh.add(op)
+            mesh.add(shape if use_shape else op)
             path = os.path.join(ctx.tmp, "swept.bmd")
             if os.path.exists(path):
                 os.remove(path)
